@@ -347,7 +347,7 @@ Qed.
 (* the configuration of the phantom witness with the repair switched on (= the current code) *)
 Definition fx_cfg : pcfg :=
   {| pc_reader := {| c_recursive := true; c_mask := WATCHDOG_ALL; c_root := ph_R; c_fix_ignored := true;
-                     c_fix_movein := true; c_fix_simulate := true; c_fix_moveout := true; c_faults := [] |};
+                     c_fix_movein := true; c_fix_simulate := true; c_fix_relabel := true; c_fix_moveout := true; c_faults := [] |};
      pc_full := false; pc_filter := None; pc_delay := 5 |}.
 
 (* mkdir R/d; drain; mv R/d O/d; drain; touch O/d/g; drain - the history that refutes soundness of the pinned code -
@@ -394,12 +394,12 @@ Proof.
   repeat split; vm_compute; reflexivity.
 Qed.
 
-(* history-level soundness for the CURRENT code (all four repairs on): stated; still false because of F10e
-   (a directory renamed before its first read whose name is re-used before that read) *)
+(* history-level soundness for the CURRENT code (all five reader repairs on): stated, not proved; no refutation is known
+   any more (F10, its nested variant and F10e are repaired; see the _repaired lemmas) *)
 Definition sound_full_current : Prop :=
   forall P w s0 h, pc_filter P = None -> c_mask (pc_reader P) = WATCHDOG_ALL ->
     c_fix_ignored (pc_reader P) = true -> c_fix_movein (pc_reader P) = true -> c_fix_simulate (pc_reader P) = true ->
-    c_fix_moveout (pc_reader P) = true ->
+    c_fix_relabel (pc_reader P) = true -> c_fix_moveout (pc_reader P) = true ->
     pinit P w = Some s0 -> sound_along P s0 [] h = true.
 
 (* ---- a concrete state for the non-vacuity example: right after the IN_MOVED_FROM of /R/d has been read *)
@@ -464,18 +464,46 @@ Definition f10e_history : list action :=
    AEmit; AEmit; AEmit; AEmit; AEmit; AEmit;
    AOp (Rename e_Rb e_Rcc); AOp (Mkdir e_Rcb); ARead 100; ATick 10; AEmit; AEmit; AEmit; AEmit; AEmit].
 
-Lemma sound_current_refuted_f10e :
-  exists s0 s obs, pinit fx_cfg ph_world = Some s0 /\ prun fx_cfg s0 f10e_history [] = Done (s, obs) /\
+(* the code before the repair of F10e: c_fix_relabel := false, every other reader repair on *)
+Definition f10e_cfg : pcfg :=
+  {| pc_reader := {| c_recursive := true; c_mask := WATCHDOG_ALL; c_root := ph_R; c_fix_ignored := true;
+                     c_fix_movein := true; c_fix_simulate := true; c_fix_relabel := false; c_fix_moveout := true;
+                     c_faults := [] |};
+     pc_full := false; pc_filter := None; pc_delay := 5 |}.
+
+Lemma sound_pinned_refuted_f10e :
+  c_fix_relabel (pc_reader f10e_cfg) = false /\
+  exists s0 s obs, pinit f10e_cfg ph_world = Some s0 /\ prun f10e_cfg s0 f10e_history [] = Done (s, obs) /\
     In (mk DirCreated e_Rccb []) (p_out s) /\ fexists e_Rccb (w_fs (p_world s)) = false /\
     fexists e_Rcb (w_fs (p_world s)) = true /\
-    sound_along fx_cfg s0 [] f10e_history = false.
+    sound_along f10e_cfg s0 [] f10e_history = false.
 Proof.
+  split; [reflexivity|].
   eexists; eexists; eexists. split; [vm_compute; reflexivity|]. split; [vm_compute; reflexivity|].
   split; [|repeat split; vm_compute; reflexivity]. vm_compute. do 10 right. left. reflexivity.
 Qed.
 
-Lemma sound_full_current_false : ~ sound_full_current.
+(* every path that exists at some point of the history *)
+Definition f10e_paths : list bytes := [ph_R; e_Rc; e_Rb; e_Rcc; e_Rcb].
+Definition known_path (x : bytes) : bool := is_nil x || existsb (beqb x) f10e_paths.
+
+(* the same history on the current code (all repairs on): sound; every event path is a path that existed; the final
+   tables are inverse to each other and record every kernel watch under the present path of its inode *)
+Lemma f10e_repaired :
+  exists s0 s obs, pinit fx_cfg ph_world = Some s0 /\ prun fx_cfg s0 f10e_history [] = Done (s, obs) /\
+    sound_along fx_cfg s0 [] f10e_history = true /\
+    forallb (fun ev => known_path (ev_src ev) && known_path (ev_dest ev)) (p_out s) = true /\
+    In (mk DirCreated e_Rcb []) (p_out s) /\
+    wfp (p_r s) = [(ph_R, 1%N); (e_Rc, 2%N); (e_Rcc, 3%N); (e_Rcb, 4%N)] /\
+    pfw (p_r s) = [(1%N, ph_R); (2%N, e_Rc); (3%N, e_Rcc); (4%N, e_Rcb)] /\
+    consistent (p_r s) /\
+    forallb (fun kw => match alookup N.eqb (kw_wd kw) (pfw (p_r s)) with
+                       | Some q => N.eqb (ino_of (w_fs (p_world s)) q) (kw_ino kw) && fisdir q (w_fs (p_world s))
+                       | None => false end) (k_watches (p_k s)) = true.
 Proof.
-  intros H. destruct sound_current_refuted_f10e as [s0 [s [obs [H1 [_ [_ [_ [_ H2]]]]]]]].
-  rewrite (H fx_cfg ph_world s0 f10e_history) in H2; try reflexivity; [discriminate | exact H1].
+  eexists; eexists; eexists. split; [vm_compute; reflexivity|]. split; [vm_compute; reflexivity|].
+  split; [vm_compute; reflexivity|]. split; [vm_compute; reflexivity|].
+  split; [vm_compute; do 10 right; left; reflexivity|].
+  split; [vm_compute; reflexivity|]. split; [vm_compute; reflexivity|].
+  split; [apply consistent_sound; vm_compute; reflexivity | vm_compute; reflexivity].
 Qed.
